@@ -239,7 +239,10 @@ def pcDelta_grouped(df, by, seq_columns, **kwargs):
 
     def pcDelta_within_group(dfg):
         index = kwargs.get("bins")
-        if isinstance(index, int):
+        if isinstance(index, int) and index == 0:
+            # bins=0: pcDelta returns the exact coincidence probability (one value per group)
+            index = [0, 1]
+        elif isinstance(index, int):
             index = [index]
         if not index is None:
             index = index[:-1]
